@@ -566,8 +566,8 @@ func (e *Exec) applyContract(fr *Frame, st *State, fc *FuncContract, args []Val,
 		c := e.callsCounter(fc.Key)
 		e.hset(st, c, "(+ "+e.hget(st, c)+" 1)")
 	}
-	if e.lastretNamed[fc.Key] && len(resList) > 0 && e.sc.sortOf(resList[0].Typ) == "Int" {
-		e.hset(st, e.heapMap("GS_ret."+sanitize(fc.Key), "Int"), resList[0].T)
+	if e.lastretNamed[fc.Key] && len(resList) > 0 && resList[0].T != "" {
+		e.hset(st, e.heapMap("GS_ret."+sanitize(fc.Key), e.sc.sortOf(resList[0].Typ)), resList[0].T)
 	}
 	e.boxCopyOut(st, args)
 	return res
